@@ -1,6 +1,8 @@
 """C17 — flags ignore value/time offsets and depend only on the local neighbourhood (DESIGN §4 C17)."""
 from __future__ import annotations
 
+import numpy as np
+
 from vfw import client, core, gen, models
 
 LEVEL = "exploration"
@@ -91,6 +93,22 @@ def run(ctx) -> None:
             relate(ctx, f"spike-{meth}", "negate", "", "qartod.spike_test", {"inp": X(x), **p}, {"inp": X(neg(x)), **p}, ident, pc)
             relate(ctx, f"spike-{meth}", "reverse", "", "qartod.spike_test", {"inp": X(x), **p}, {"inp": X(x[::-1]), **p},
                    lambda f: f[::-1], pc)
+        # ---- the same relations on narrow integer carriers (values and offset fit the dtype exactly)
+        if n >= 3 and rng.random() < 0.3:
+            dt_i, lo_i, hi_i, off_i = rng.choice([("int16", 11000, 13000, 8000), ("int16", -2000, 2000, -30000), ("uint8", 10, 60, 150),
+                                                  ("int8", -20, 20, 100), ("int32", 2 ** 30 - 3000, 2 ** 30, 2 ** 30 - 1)])
+            xi = [rng.randrange(lo_i, hi_i + 1) for _ in range(n)]
+            xi[n // 2] = hi_i if xi[n // 2] < (lo_i + hi_i) // 2 else lo_i
+            for meth in ("average", "differential"):
+                p = {"suspect_threshold": (hi_i - lo_i) / 8, "fail_threshold": (hi_i - lo_i) / 3, "method": meth}
+                relate(ctx, f"spike-{meth}", f"offset-{dt_i}", off_i, "qartod.spike_test",
+                       {"inp": np.array(xi, dtype=dt_i), **p}, {"inp": np.array([v + off_i for v in xi], dtype=dt_i), **p}, ident,
+                       {"x": xi, "dtype": dt_i, "params": p})
+            relate(ctx, "flat_line", f"offset-{dt_i}", off_i, "qartod.flat_line_test",
+                   {"inp": np.array(xi, dtype=dt_i), "tinp": TT(gen.regular(n, 60)), "suspect_threshold": 60, "fail_threshold": 120,
+                    "tolerance": (hi_i - lo_i) / 4},
+                   {"inp": np.array([v + off_i for v in xi], dtype=dt_i), "tinp": TT(gen.regular(n, 60)), "suspect_threshold": 60,
+                    "fail_threshold": 120, "tolerance": (hi_i - lo_i) / 4}, ident, {"x": xi, "dtype": dt_i})
         # ---- rate of change
         rates = sorted({abs(x[k] - x[k - 1]) / (t[k] - t[k - 1]) for k in range(1, n) if None not in (x[k], x[k - 1])
                         }) or [1.0]
